@@ -1172,6 +1172,13 @@ void NifFile::TrimTexturePaths() {
 		std::smatch match;
 		std::regex pattern(R"(^(?!textures\\).*?\\textures\\)", std::regex_constants::icase);
 	
+		// A terrain path that already starts with "Data\textures\" is clean: take its "Data\" off (it is added
+		// back below). The search would strip the whole prefix and rebuild it, not always to the same path.
+		if (isTerrain)
+			tex = std::regex_replace(tex,
+									 std::regex("^Data\\\\(?=textures\\\\)", std::regex_constants::icase),
+									 "");
+
 		if (std::regex_search(tex, match, pattern))
 			tex = tex.substr(match[0].length()); // Remove matched string
 
